@@ -62,7 +62,7 @@ pub open spec fn is_perm32(p: Seq<i32>, n: int) -> bool {
     &&& forall|i: int, k: int| 0 <= i < k < n ==> #[trigger] p[i] != #[trigger] p[k]
 }
 '''
-LU_SPEC = PERM_SPEC + r'''
+LU_ONLY_SPEC = r'''
 /// multipliers of the columns < j are bounded by 1 in magnitude (property C11)
 pub open spec fn bounded(lu: Seq<f64>, n: int, j: int) -> bool {
     forall|r: int, c: int| 0 <= c < j && c < r < n ==> r_abs(rv(#[trigger] at2(lu, n, r, c))) <= 1real
@@ -71,6 +71,8 @@ pub open spec fn bounded(lu: Seq<f64>, n: int, j: int) -> bool {
 pub open spec fn colmax(lu: Seq<f64>, n: int, j: int, p: int, lo: int, hi: int) -> bool {
     forall|r: int| lo <= r < hi ==> r_abs(rv(#[trigger] at2(lu, n, r, j))) <= r_abs(rv(at2(lu, n, p, j)))
 }
+'''
+LU_SPEC = PERM_SPEC + LU_ONLY_SPEC + r'''
 pub proof fn lemma_perm32_swap(p: Seq<i32>, n: int, a: int, b: int) requires is_perm32(p, n), 0 <= a < n, 0 <= b < n
     ensures is_perm32(p.update(a, p[b]).update(b, p[a]), n)
 {
